@@ -89,3 +89,61 @@ def moment_block(F, sa, sb, C, order):
         return r
 
     return contracted_block(F, sa, sb, prim)
+
+
+# ---- S3: differential operators on polynomial x Gaussian integrands, via S1 -----------------
+from .gauss1d import dgauss_poly  # noqa: E402
+
+
+def d1d(g, i, j, order):
+    """int (x-A)^i e^{-a(x-A)^2} d^order/dx^order [ (x-B)^j e^{-b(x-B)^2} ] dx"""
+    tot = None
+    for m, c in dgauss_poly(j, g.b, order).items():
+        term = g.G(i, m, 0) * c
+        tot = term if tot is None else tot + term
+    return tot
+
+
+def kinetic_block(F, sa, sb):
+    T = PairTables(F, sa, sb)
+
+    def prim(pa, pb, ca, cb):
+        tot = F.num(0)
+        for ax in range(3):
+            r = d1d(T.g[pa, pb, ax], ca[ax], cb[ax], 2)
+            for o in range(3):
+                if o != ax:
+                    r = r * T.g[pa, pb, o].G(ca[o], cb[o], 0)
+            tot = tot + r
+        return tot * F.num(-1) / 2
+
+    return contracted_block(F, sa, sb, prim)
+
+
+def momentum_block(F, sa, sb, ax):
+    """<a| -i d/dx_ax |b>"""
+    T = PairTables(F, sa, sb)
+
+    def prim(pa, pb, ca, cb):
+        r = d1d(T.g[pa, pb, ax], ca[ax], cb[ax], 1)
+        for o in range(3):
+            if o != ax:
+                r = r * T.g[pa, pb, o].G(ca[o], cb[o], 0)
+        return r * (-F.imag())
+
+    return contracted_block(F, sa, sb, prim)
+
+
+def angmom_block(F, sa, sb, ax, origin):
+    """<a| -i (r x grad)_ax |b> about ``origin``"""
+    T = PairTables(F, sa, sb, origin)
+    u, v = (ax + 1) % 3, (ax + 2) % 3  # (r x grad)_ax = r_u d_v - r_v d_u
+
+    def prim(pa, pb, ca, cb):
+        g = T.g
+        s = g[pa, pb, ax].G(ca[ax], cb[ax], 0)
+        t1 = g[pa, pb, u].G(ca[u], cb[u], 1) * d1d(g[pa, pb, v], ca[v], cb[v], 1)
+        t2 = d1d(g[pa, pb, u], ca[u], cb[u], 1) * g[pa, pb, v].G(ca[v], cb[v], 1)
+        return s * (t1 - t2) * (-F.imag())
+
+    return contracted_block(F, sa, sb, prim)
